@@ -46,10 +46,16 @@ TRUSTED_BASE = [
     "uncompressed `to_wire` (spy on Name.to_wire); the oracle does not use it (it parses RFC layouts)",
 ]
 ASSUMPTIONS = [
-    "sortedness of `sorted(names)` w.r.t. RFC 4034 §6.1 is C06's theorem; C15.nsec_chain takes the sorted list and "
-    "the contiguity of subtrees in canonical order as explicit decidable hypotheses",
+    "the canonical-order facts the NSEC chain needs (sorted output strictly increasing, no name before a name it is "
+    "beneath, is_subdomain transitive, subtrees contiguous) are discharged from C06 (Props/C06, Proofs/NameOrder*); "
+    "C15.nsec_chain only assumes that node names are pairwise distinct (dictionary keys) and nodes are non-empty",
     "anything needing a private key (dns.dnssecalgs, sign, validate) is outside the model",
-    "NSEC3 chains are not implemented by dnspython (sign_zone raises NotImplementedError); only nsec3_hash is covered",
+    "NSEC3 chains (and therefore opt-out handling) are not implemented by dnspython: sign_zone raises "
+    "NotImplementedError; covered: nsec3_hash with every argument spelling, the owner name built from it, and the "
+    "agreement of the NSEC3 RDATA text with the hash",
+    "textual arguments of nsec3_hash are ASCII in the model (str.upper of non-ASCII letters, IDNA are outside it)",
+    "recorded findings still in the tree: Chaosnet A lower-cased; unimplemented RFC 4034 §6.2 types opaque; NSEC bitmap "
+    "of a delegation point announces non-authoritative types (model parameter NsecConsts.cutTypes)",
 ]
 
 NS, DS, RRSIG, NSEC, SOA, ZONEMD, DNSKEY = 2, 43, 46, 47, 6, 63, 48
@@ -493,7 +499,7 @@ def eval_rrsigdata(ctx, c, rep):
         rdataset.add(rd)
     members = list(rdataset)
     r, v = outcome(lambda: dns.dnssec._make_rrsig_signature_data((rrname, rdataset), rrsig, o), hx)
-    line = (f"c15.rrsigdata {VARIANTS['signer']} {s[0]} {s[1]} {s[2]} {s[3]} {s[4]} {s[5]} {s[6]} {enc_labels(signer.labels)} "
+    line = (f"c15.rrsigdata {s[0]} {s[1]} {s[2]} {s[3]} {s[4]} {s[5]} {s[6]} {enc_labels(signer.labels)} "
             f"{enc_opt(origin)} {enc_labels(rrname.labels)} {ty} {cls} " + " ".join(fields_of(rd) for rd in members))
     ctx.corr(line.rstrip(), r, c)
     ctx.count("rrsigdata." + sig_family(r))
@@ -590,6 +596,10 @@ def eval_ds(ctx, c, rep):
             pass
 
 
+def _txt(s: str) -> str:
+    return hx(s.encode("ascii"))
+
+
 def eval_nsec3(ctx, c, rep):
     name = mkname(c["name"])
     salt = bytes.fromhex(c["salt"])
@@ -599,22 +609,76 @@ def eval_nsec3(ctx, c, rep):
     r, v = outcome(lambda: with_dnssec_hashlib(_FakeHashlib(log, toy=True), lambda: dns.dnssec.nsec3_hash(name, salt, it, alg)), str)
     ctx.corr(f"c15.nsec3 {enc_labels(name.labels)} {hx(salt)} {it} {alg}", r, c)
     ctx.count("nsec3." + sig_family(r))
-    fq = r_fqdn(name.labels, None)
-    if alg != 1 or fq is None:
-        rr, vv = outcome(lambda: dns.dnssec.nsec3_hash(name, salt, it, alg), str)
-        if vv is not None or rr.startswith("FOREIGN"):
-            ctx.fail("C15/nsec3_hash/bad-input-outcome", f"nsec3_hash({name}, alg={alg}) -> {rr}", rep)
+    # every accepted (and some refused) spelling of the arguments: domain as Name/str, salt as None/str/bytes,
+    # algorithm as int/str; then the owner name callers build from the hash
+    dform, sform, aform = c.get("dform", "name"), c.get("sform", "bytes"), c.get("aform")
+    d_arg = name if dform == "name" else name.to_text()
+    d_tok = "n:" + enc_labels(name.labels) if dform == "name" else "t:" + _txt(name.to_text())
+    if sform == "bytes":
+        s_arg, s_tok = salt, "b:" + hx(salt)
+    elif sform == "none":
+        s_arg, s_tok = None, "none"
+    elif sform in ("hex", "HEX"):
+        s_arg = salt.hex() if sform == "hex" else salt.hex().upper()
+        s_tok = "t:" + _txt(s_arg)
+    else:  # raw text, possibly malformed
+        s_arg, s_tok = c["stext"], "t:" + _txt(c["stext"])
+    a_arg = alg if aform is None else aform
+    a_tok = f"i:{alg}" if aform is None else "t:" + _txt(aform)
+    r2, v2 = outcome(lambda: with_dnssec_hashlib(_FakeHashlib([], toy=True), lambda: dns.dnssec.nsec3_hash(d_arg, s_arg, it, a_arg)), str)
+    ctx.corr(f"c15.nsec3args {d_tok} {s_tok} {it} {a_tok}", r2, c)
+    ctx.count(f"nsec3args.{dform}.{sform}.{'int' if aform is None else 'text'}." + sig_family(r2))
+    zone = mkname(c.get("zone", [""]))
+    if v2 is not None:
+        r3, v3 = outcome(lambda: dns.name.from_text(v2, zone), lambda n: enc_labels(n.labels))
+        ctx.corr(f"c15.nsec3owner {d_tok} {s_tok} {it} {a_tok} {enc_labels(zone.labels)}", r3, c)
+        if r3.startswith("FOREIGN"):
+            ctx.fail("C15/nsec3-owner/foreign-exception", f"from_text({v2!r}, {zone}) -> {r3}", rep)
+        elif v3 is not None and (v3.labels[0] != v2.encode() or v3.labels[1:] != zone.labels):
+            ctx.fail("C15/nsec3-owner/not-hash-label-plus-zone", f"from_text({v2!r}, {zone}) = {v3.labels}", rep)
+    if r2.startswith("FOREIGN"):
+        ctx.fail("C15/nsec3_hash/foreign-exception:" + r2.split(" ")[1], f"nsec3_hash({d_arg!r}, {s_arg!r}, {it}, {a_arg!r}) -> {r2}", rep)
         return
-    # structure under the toy hash, then the real thing in its three salt spellings
-    if v != r_nsec3(fq, salt, it, toy_hash(20)):
-        ctx.fail("C15/nsec3_hash/structure", f"nsec3_hash under a substituted hash: {r} != {r_nsec3(fq, salt, it, toy_hash(20))}", rep)
+    # reference for the spelled arguments (real SHA-1)
+    fq = r_fqdn(name.labels, [b""] if dform == "text" else None)
+    if sform == "raw":
+        st = c["stext"]
+        ok_salt = len(st) % 2 == 0
+        ref_salt = None
+        if ok_salt:
+            pairs = "".join(ch for ch in st if ch not in " \t\n\r\x0b\x0c")
+            hexd = "0123456789abcdefABCDEF"
+            # whitespace may only separate whole octets
+            toks = st.replace("\t", " ").replace("\n", " ").replace("\r", " ").replace("\x0b", " ").replace("\x0c", " ").split(" ")
+            ok_salt = all(len(t) % 2 == 0 and all(ch in hexd for ch in t) for t in toks)
+            if ok_salt:
+                ref_salt = bytes(int(pairs[i:i + 2], 16) for i in range(0, len(pairs), 2))
+    else:
+        ok_salt, ref_salt = True, (b"" if sform == "none" else salt)
+    ok_alg = (alg == 1) if aform is None else (aform.upper() == "SHA1")
+    rr, vv = outcome(lambda: dns.dnssec.nsec3_hash(d_arg, s_arg, it, a_arg), str)
+    if not (ok_alg and ok_salt and fq is not None):
+        if vv is not None or rr.startswith("FOREIGN") or ((not ok_alg or not ok_salt) and rr != "err ValueError"):
+            ctx.fail("C15/nsec3_hash/bad-input-outcome", f"nsec3_hash({d_arg!r}, {s_arg!r}, {it}, {a_arg!r}) -> {rr}", rep)
         return
-    want = r_nsec3(fq, salt, it)
-    for sp in ([salt, salt.hex(), salt.hex().upper()] + ([None] if not salt else [])):
-        rr, vv = outcome(lambda: dns.dnssec.nsec3_hash(name, sp, it, alg if c.get("algtext") is None else c["algtext"]), str)
-        if vv != want:
-            ctx.fail("C15/nsec3_hash/value-differs", f"nsec3_hash({name}, {sp!r}, {it}) -> {rr}; RFC 5155 §5: {want}", rep)
-            return
+    if sum(len(l) + 1 for l in fq) > 255:
+        return  # the textual domain does not fit once the root is appended
+    if v2 != r_nsec3(fq, ref_salt, it, toy_hash(20)):
+        ctx.fail("C15/nsec3_hash/structure", f"nsec3_hash under a substituted hash: {r2} != {r_nsec3(fq, ref_salt, it, toy_hash(20))}", rep)
+        return
+    want = r_nsec3(fq, ref_salt, it)
+    if vv != want:
+        ctx.fail("C15/nsec3_hash/value-differs", f"nsec3_hash({d_arg!r}, {s_arg!r}, {it}, {a_arg!r}) -> {rr}; RFC 5155 §5: {want}", rep)
+        return
+    # the NSEC3 RDATA spells the same hash (next hashed owner) and salt: RFC 5155 §3.3
+    from dns.rdtypes.ANY.NSEC3 import NSEC3 as NSEC3c
+    digest = hashlib.sha1(r_wire(fq, True) + ref_salt).digest()
+    for _ in range(it):
+        digest = hashlib.sha1(digest + ref_salt).digest()
+    if len(ref_salt) <= 255 and it <= 65535:
+        f = NSEC3c(1, 50, 1, 0, it, ref_salt, digest, ()).to_text().split(" ")
+        if f[3] != ("-" if not ref_salt else ref_salt.hex()) or f[4].upper() != want:
+            ctx.fail("C15/nsec3-rdata/text-differs-from-hash", f"NSEC3 text {f} vs hash {want}", rep)
 
 
 def eval_bitmap(ctx, c, rep):
@@ -684,7 +748,7 @@ def eval_signzone(ctx, c, rep):
 
     r, v = outcome(lambda: dns.dnssec.sign_zone(z, add_dnskey=False, rrset_signer=signer), lambda _: "")
     impl = ("ok " + (" ".join(events) or "-")) if v is not None or r.startswith("ok") else r
-    ctx.corr(f"c15.signzone {VARIANTS['last']} {VARIANTS['cut']} {enc_labels(origin.labels)} 1 " + " ".join(order), impl, c)
+    ctx.corr(f"c15.signzone {1 if VARIANTS['cut'] == 'intended' else 0} {enc_labels(origin.labels)} 1 " + " ".join(order), impl, c)
     ctx.count("signzone." + sig_family(r) + (".rel" if c["rel"] else ".abs"))
     if not r.startswith("ok"):
         ctx.fail("C15/sign_zone/raises:" + r.split(" ")[1], f"sign_zone -> {r}", rep)
@@ -807,7 +871,9 @@ def eval_zonemd(ctx, c, rep):
     want = hashlib.new("sha384" if alg == 1 else "sha512", want_in).digest()
     if v is None or v != want:
         got_in = log[-1] if log else b""
-        if r_lower(got_in) == r_lower(want_in) and got_in != want_in:
+        if got_in == want_in:
+            sig = "C15/zonemd/digest-of-correct-input-differs"
+        elif r_lower(got_in) == r_lower(want_in):
             sig = "C15/zonemd/case"
         elif sorted(got_in) == sorted(want_in):
             sig = "C15/zonemd/order"
@@ -1012,11 +1078,23 @@ def gen_ds(rng):
             "dt": rng.choice([1, 2, 2, 2, 4, 4, 0, 3, 5, 6, 255]), "policy": rng.choice(["all", "all", "default"])}
 
 
+RAW_SALTS = ["-", "a", "abc", "ab ", " ab", "ab cd", "ab  cd", "a bcd", "ab\tcd\n", "zz", "0x", "AbCd", "", "  ", "ab\x0bcd ", "a-"]
+
+
 def gen_nsec3(rng):
     name = gen_name(rng, absolute=rng.chance(9, 10), maxlabels=4, budget=rng.choice([60, 250]))
-    return {"kind": "nsec3", "name": hexl(name), "salt": rng.bytes(rng.choice([0, 0, 1, 2, 4, 8, 8, 255])).hex(),
-            "iter": rng.choice([0, 0, 1, 1, 2, 3, 5, 10, 12, 50]), "alg": rng.choice([1] * 9 + [0, 2]),
-            "algtext": rng.choice([None, None, "SHA1", "sha1"])}
+    sform = rng.choice(["bytes", "bytes", "hex", "HEX", "none", "raw"])
+    salt = rng.bytes(rng.choice([0, 0, 1, 2, 4, 8, 8, 255]))
+    if sform == "none":
+        salt = b""
+    c = {"kind": "nsec3", "name": hexl(name), "salt": salt.hex(),
+         "iter": rng.choice([0, 0, 1, 1, 2, 3, 5, 10, 12, 50]), "alg": rng.choice([1] * 9 + [0, 2]),
+         "dform": rng.choice(["name", "name", "text"]), "sform": sform,
+         "aform": rng.choice([None, None, None, "SHA1", "sha1", "Sha1", "SHA256", "", "1"]),
+         "zone": hexl(rng.choice(ORIGINS + [[b"x" * 63, b"y" * 63, b"z" * 63, b"w" * 30, b""]]))}
+    if sform == "raw":
+        c["stext"] = rng.choice(RAW_SALTS)
+    return c
 
 
 TYPE_POOL = [1, 2, 5, 6, 7, 8, 15, 16, 28, 43, 46, 47, 48, 50, 255, 256, 257, 263, 264, 511, 512, 1234, 32767, 32768,
@@ -1148,7 +1226,7 @@ def generate(ctx: Ctx, scale: float, rng):
     specs = all_specs()
     plan = [("digest", 2600, lambda: gen_digest(rng, specs)), ("keyid", 1200, lambda: gen_keyid(rng)),
             ("rrsigdata", 1200, lambda: gen_rrsigdata(rng)), ("ds", 600, lambda: gen_ds(rng)),
-            ("nsec3", 500, lambda: gen_nsec3(rng)), ("bitmap", 900, lambda: gen_bitmap(rng)),
+            ("nsec3", 700, lambda: gen_nsec3(rng)), ("bitmap", 900, lambda: gen_bitmap(rng)),
             ("signzone", 500, lambda: gen_signzone(rng)), ("zonemd", 300, lambda: gen_zonemd(rng))]
     # every implemented pair at least twice with mixed-case absolute names (exhaustive over the table)
     for cls, ty, tpl in specs:
@@ -1221,7 +1299,7 @@ def replay(ctx: Ctx, obj: dict):
 
 LEVEL = {
     "text": "Lean 4 theorems over an executable model of the key-free DNSSEC code paths (lean/Model/Dnssec.lean): the behavioural canonicalisation table regenerated from every implemented (class,type) equals the RFC 4034 §6.2 list minus NSEC (decide over the whole table), canonical forms decode with a pointer-free decoder, key tag = RFC 4034 App. B for all byte strings, RRSIG signing input = RFC 4034 §3.1.8.1 incl. wildcard reduction and error cases, DS input composition, NSEC3 iteration = RFC 5155 §5 recurrence and base32hex translation, type bitmaps exact/ascending/minimal, NSEC chain over the secure names, ZONEMD exclusions. The model is tied to the code by a differential correspondence check over every modelled function and an independent Python RFC reference evaluated on the implementation.",
-    "note": "Trusted: Lean kernel + propext/Classical.choice/Quot.sound; statements in lean/Props/C15.lean; correspondence harness and generators; harness/extract_C15.py; hashlib. Sortedness of sorted(names) is C06's theorem and enters C15.nsec_chain as a hypothesis.",
+    "note": "Trusted: Lean kernel + propext/Classical.choice/Quot.sound; statements in lean/Props/C15.lean; correspondence harness and generators; harness/extract_C15.py; hashlib. The order facts of the NSEC chain are discharged from C06; partial only where the three recorded findings force it (Chaosnet A, unimplemented §6.2 types, delegation-point bitmap).",
     "technique": "Lean 4 proof (induction, invariants over the loops, decide over a complete finite table) + model-vs-implementation correspondence + independent RFC reference oracle",
     "design_ref": "DESIGN.md §7 C15",
 }
